@@ -344,7 +344,10 @@ impl Rewrite for ast::Attribute {
 
             if let Some(ref meta) = self.meta() {
                 // This attribute is possibly a doc attribute needing normalization to a doc comment
-                if context.config.normalize_doc_attributes() && meta.has_name(sym::doc) {
+                if context.config.normalize_doc_attributes()
+                    && meta.has_name(sym::doc)
+                    && !comment_follows_on_line(context, self.span)
+                {
                     if let Some(ref literal) = meta.value_str() {
                         let comment_style = match self.style {
                             ast::AttrStyle::Inner => CommentStyle::Doc,
@@ -507,6 +510,17 @@ impl Rewrite for [ast::Attribute] {
             attrs = &attrs[1..];
         }
     }
+}
+
+/// Whether a comment stands behind `span` on its line. A line doc comment runs to the end of
+/// its line, so an attribute with such a comment behind it cannot become one.
+fn comment_follows_on_line(context: &RewriteContext<'_>, span: Span) -> bool {
+    let rest = mk_sp(span.hi(), context.snippet_provider.end_pos());
+    context
+        .snippet_provider
+        .span_to_snippet(rest)
+        .and_then(|s| s.lines().next())
+        .is_some_and(|line| line.trim_start().starts_with('/'))
 }
 
 fn attr_prefix(attr: &ast::Attribute) -> &'static str {
